@@ -17,6 +17,7 @@ from nixio.exceptions import DuplicateName
 
 import nixwalk
 
+COUNTS = {}          # signature -> how often generated in this process (all histories of a run)
 CLOCK = [1000]
 nixio.util.now_int = lambda: CLOCK[0]
 nixio.util.util.now_int = lambda: CLOCK[0]
@@ -748,12 +749,59 @@ class Gen(object):
                  find=0, parent=0, referring=0, copy=0)
         w.update(self.profile.get("weights", {}))
         kinds = list(w)
+        # coverage guidance: of a few candidate ops, take the one whose signature (operation x kinds of the entities
+        # involved x variant) has been exercised least so far in this run
+        cands = []
         for _ in range(50):
             t = rnd.choices(kinds, [w[k] for k in kinds])[0]
             op = self.try_make(t)
             if op is not None:
-                return op
-        return ("create", 0, "CBlocks", self.name() + str(rnd.randint(0, 99)), "t", [])
+                cands.append(op)
+                if len(cands) >= self.profile.get("candidates", 3):
+                    break
+        if not cands:
+            return ("create", 0, "CBlocks", self.name() + str(rnd.randint(0, 99)), "t", [])
+        cands.sort(key=lambda o: COUNTS.get(self.signature(o), 0))
+        op = cands[0]
+        COUNTS[self.signature(op)] = COUNTS.get(self.signature(op), 0) + 1
+        if op[0] == "copy":
+            self.ncopies += 1
+            if op[4]:
+                self.kept = True
+        elif self.retry is not None and op[0] != "create":
+            self.retry = None             # the retry belonged to a candidate that was not taken
+        return op
+
+    def signature(self, op):
+        t = op[0]
+        k = self.r.kind
+
+        def kk(key):
+            return key[0] if isinstance(key, (list, tuple)) else "?"
+        try:
+            if t == "create":
+                return (t, k(op[1]), op[2], op[3] == "", "/" in op[3], op[4] == "")
+            if t == "create_feature":
+                return (t, k(op[1]), op[3])
+            if t in ("lookup", "delete"):
+                return (t, k(op[1]), op[2], kk(op[3]))
+            if t == "append":
+                return (t, k(op[1]), op[2], k(op[3]))
+            if t in ("remove", "lookup_link"):
+                return (t, k(op[1]), op[2], kk(op[3]))
+            if t == "set_link":
+                return (t, k(op[1]), op[2], op[3] is None)
+            if t == "set_attr":
+                return (t, k(op[1]), op[2], op[3] is None)
+            if t == "copy":
+                return (t, k(op[1]), k(op[2]), op[3] is None, op[4], op[5])
+            if t in ("probe", "probe_link", "referring", "find", "parent"):
+                return (t, k(op[1]), op[2])
+            if t == "force":
+                return (t, k(op[1]), op[2])
+        except Exception:
+            pass
+        return (t,)
 
     def try_make(self, t):
         rnd = self.rnd
@@ -774,9 +822,6 @@ class Gen(object):
                 return None
             keep = True if self.kept else (rnd.random() < 0.4)
             name = None if rnd.random() < 0.35 else "cp%d" % rnd.randint(0, 5)
-            self.ncopies += 1
-            if keep:
-                self.kept = True
             return ("copy", rnd.choice(ds), rnd.choice(xs), name, keep, rnd.random() < 0.6)
         if t == "mtag":
             bs = self.live(["Block"])
